@@ -9,6 +9,7 @@ A check module (vf.cNN) provides:
     wants(mod, tname, t, feats)       -> bool (optional: skip types the property does not speak about)
 """
 import importlib
+import os
 
 from hypothesis import strategies as st
 
@@ -16,6 +17,9 @@ from . import gen, drv, pipeline, reduce
 from .common import Acc, h
 from .model import Module, val_to_json, val_from_json, val_repr
 from .pipeline import Fail
+
+
+TYPE_BUDGET_S = 150
 
 
 def worker(mod_json, wseed, nvalues, cfg_kw, spec_name, flags=drv.DEFAULT_FLAGS, variant="asan"):
@@ -56,10 +60,16 @@ def worker(mod_json, wseed, nvalues, cfg_kw, spec_name, flags=drv.DEFAULT_FLAGS,
             strat = spec.strategy(mod, t, cfg, feats)
 
             hung = []
+            _tt = _time.time()
 
-            def body(x, tname=tname, t=t, feats=feats, ttext=ttext, hung=hung):
+            def body(x, tname=tname, t=t, feats=feats, ttext=ttext, hung=hung, _tt=_tt):
                 if hung:
                     raise hung[0]      # a hang costs a full timeout per run: do not let the shrinker repeat it
+                if _time.time() - _tt > TYPE_BUDGET_S:
+                    # a few types (recursive trees of collections) cost seconds per value in the Python reference
+                    # encoders: the remaining values of such a type are not run (counted; never a verdict)
+                    acc.extra["values_not_run(type budget of %ds used up)" % TYPE_BUDGET_S] += 1
+                    return
                 try:
                     res = spec.run_case(sess, mod, tname, t, x, feats, acc)
                 except drv.DriverCrash as e:
@@ -86,7 +96,9 @@ def worker(mod_json, wseed, nvalues, cfg_kw, spec_name, flags=drv.DEFAULT_FLAGS,
                 if acc.evaluations % 101 == 1:
                     acc.sample({"type": "%s ::= %s" % (tname, ttext[:300]), "case": val_repr(replay.get("x"), 200)})
             f = None
-            _tt = _time.time()
+            if os.environ.get("VERIF_HEARTBEAT"):
+                with open(os.path.join(os.environ["VERIF_HEARTBEAT"], "hb-%d.txt" % os.getpid()), "w") as _hb:
+                    _hb.write("%s wseed=%s nvalues=%s\n%s ::= %s\n" % (mod.name, wseed, nvalues, tname, ttext))
             if hasattr(spec, "boundary_cases") and mod.name.startswith("Cat"):
                 # catalogue types: a deterministic list of boundary values first (every enumeration item, every
                 # alternative, every OPTIONAL component alone, range end points), then the random draws
